@@ -1,7 +1,7 @@
 (* The light population as the VM sees it through LightSet (after one discovery),
    and the observable events of a run. *)
 From Coq Require Import ZArith String List Bool PrimFloat.
-From Bardolph Require Import Gen.Codes Time.TimeSpec Time.TimePattern Lang.Value.
+From Bardolph Require Import Gen.Codes Time.TimeSpec Time.TimeCore Lang.Value.
 Open Scope string_scope.
 Open Scope list_scope.
 Import ListNotations.
